@@ -3,4 +3,5 @@ package all
 
 import (
 	_ "verif/harness/props/c04"
+	_ "verif/harness/props/c10"
 )
